@@ -24,6 +24,7 @@ class Fn:
         self.hi = d['hi']
         self.impl_of = d['impl_of']
         self.promoted = d['promoted']
+        self.upvars = d.get('upvars') or []   # closures: types of the captured values
         self.jumps = d.get('jumps') or []   # user-written break/continue/return and `?` inside loops (from HIR)
         self._succ = None
         self._pred = None
